@@ -53,6 +53,9 @@ func exec(c proto.Case, o *proto.Out) []string {
 	outs := make([]string, len(c.Ops))
 	st := &caseState{}
 	defer func() {
+		if st.fl != nil && st.fl.mode == "overlap" {
+			st.fl.releaseAll()
+		}
 		if st.po != nil {
 			st.po.drain()
 			if st.po.settleMiss > 0 {
@@ -69,8 +72,23 @@ func exec(c proto.Case, o *proto.Out) []string {
 		}
 		var a string
 		switch w[0] {
-		case "fmode", "fproc", "fx", "fq", "fleak", "fbuild", "fx2":
+		case "fmode", "fproc", "fx", "fq", "fleak", "fbuild", "fx2", "fxb", "fxe":
 			a = flowsOp(st, w)
+			if w[0] == "fxb" || w[0] == "fxe" {
+				switch {
+				case strings.HasPrefix(a, "parked"):
+					nRetry++
+					o.Count("overlap-parked")
+				case strings.HasPrefix(a, "retry"):
+					if w[0] == "fxb" {
+						nRetry++
+					}
+					o.Count("overlap-" + w[0] + "-retry")
+				case strings.HasPrefix(a, "failed"):
+					nFailed++
+					o.Count("overlap-failed")
+				}
+			}
 			if w[0] == "fx2" {
 				if strings.Contains(a, "=retry") {
 					nRetry++
@@ -286,10 +304,65 @@ func genFlowsEngine(r *prng.R, ln int) []string {
 	return append(ops, "fleak")
 }
 
+// overlapping transactions: several transactions of one sequence (and of other sequences) inside the processor at
+// once — a transaction parked in its cool-down does not hold back the next response of the same sequence
+func genOverlap(r *prng.R, ln int) []string {
+	att := r.Range(1, 4)
+	cd := r.Range(1, 3)
+	if r.Chance(10) {
+		cd = 0
+	}
+	k4 := prng.Pick(r, []int{0, 0, 2, 4})
+	ops := []string{"fmode mode=overlap timeout=1000", fmt.Sprintf("fproc name=R attempts=%d cooldown=%d mult4=%d", att, cd, k4)}
+	nseq := r.Range(1, 3)
+	seqs := append([]string{}, seqNames[:nseq]...)
+	if r.Chance(20) {
+		seqs[r.Intn(nseq)] = ""
+	}
+	cnt := map[string]int{}
+	var parked []string
+	txn := 0
+	for len(ops) < ln+2 {
+		if len(parked) > 0 && r.Chance(35) {
+			i := r.Intn(len(parked))
+			ops = append(ops, "fxe id="+parked[i])
+			parked = append(parked[:i], parked[i+1:]...)
+			continue
+		}
+		s := prng.Pick(r, seqs)
+		txn++
+		id := fmt.Sprintf("t%d", txn)
+		ops = append(ops, fmt.Sprintf("fxb p=R seq=%s id=%s", proto.Enc(s), id))
+		// generation steering only: which transactions will be parked
+		cnt[s]++
+		if cnt[s] > att {
+			cnt[s] = 0
+		} else if (4*cd+cnt[s]*k4)/4 > 0 {
+			parked = append(parked, id)
+		}
+	}
+	for _, id := range parked {
+		if r.Chance(70) {
+			ops = append(ops, "fxe id="+id)
+		}
+	}
+	return append(ops, "fleak")
+}
+
 // two overlapping flows (host/* and host/orders/items), each with its own Retry processor, same or different keys
 func genFlowsEngine2(r *prng.R, ln int) []string {
 	lohi := prng.Pick(r, [][2]int{{500, 599}, {500, 502}, {429, 429}, {100, 599}})
 	ops := []string{fmt.Sprintf("fmode mode=engine2 timeout=%d lo=%d hi=%d", prng.Pick(r, []int{0, 30, 1000}), lohi[0], lohi[1])}
+	if r.Chance(45) {
+		// flow-filter status_code lists; often both flows on ONE url pattern, told apart by their lists only
+		lists := []string{"500,502,503", "429", "429,500", "500", "-", "404,429,503"}
+		u := "items"
+		if r.Chance(70) {
+			u = "same"
+		}
+		ops[0] = fmt.Sprintf("fmode mode=engine2 timeout=1000 lo=100 hi=599 url2=%s sa=%s sb=%s", u, prng.Pick(r, lists), prng.Pick(r, lists))
+		lohi = [2]int{100, 599}
+	}
 	keyA, keyB := "R", "R"
 	if r.Chance(40) {
 		keyB = "Q"
@@ -495,11 +568,13 @@ func gen(r *prng.R, f proto.Flags, emit func(proto.Case)) {
 		ln := rr.Range(3, 34)
 		var ops []string
 		switch x := rr.Intn(100); {
-		case x < 43:
+		case x < 39:
 			ops = genFlowsDirect(rr, ln)
+		case x < 44:
+			ops = genOverlap(rr, ln)
 		case x < 49:
 			ops = genFlowsEngine(rr, ln)
-		case x < 55:
+		case x < 56:
 			ops = genFlowsEngine2(rr, ln)
 		case x < 82:
 			ops = genPolicy(rr, ln, false)
